@@ -305,6 +305,8 @@ def run(ctx):
         for k in sorted(strata):
             kc += [dict(c, t="seq", rm="-", scale="") for c in strata[k][:4 if k[1] else 2]]
     kc += [dict(t="e2e", steps=[], rm=r) for r in ("pass", "macFlip")] * (15 if q else 100)
+    # ... and before / after an epoch boundary of its ISD-AS (the listener's cache holds the ended epoch's key)
+    kc += [dict(t="e2eep", steps=[], rm=r) for r in ("pass", "macFlip")] * (6 if q else 40)
     rng.shuffle(kc)
     kcp = ctx.path("kcases.ndjson")
     vlib.write_ndjson(kcp, kc)
@@ -342,6 +344,11 @@ def run(ctx):
             1 for r in live if r["cst"] in ("prevEpoch", "olderEpoch") and r["fetches"]),
         "live listener: steps not judged (boundary passed during the exchange)": sum(1 for r in krecs if r["k"] == "key" and r["amb"]),
         "live listener: sequences run again with longer epochs": klate, "given up": kgaveup,
+        "real client after an epoch boundary (listener's cached key ended): accepted an authenticated reply": sum(
+            1 for r in krecs if r["k"] == "e2e" and r["cst"] == "prevEpoch" and not r["amb"] and r["cli"] == "accept"
+            and r["delivered"] and r["rhasauth"] and r["rexpected"] and r["rmacok"]),
+        "... refused a reply with a flipped MAC bit": sum(
+            1 for r in krecs if r["k"] == "e2e" and r["cst"] == "prevEpoch" and not r["amb"] and r["cli"] == "refuse"),
         "fetcher: calls": len(frecs),
         "fetcher: at NotBefore / middle / NotAfter": [sum(1 for r in frecs if r["pos"] == i) for i in (0, 1, 2)],
         "fetcher: cached key of an ended epoch replaced": sum(1 for r in frecs if r["cst"] in ("prevEpoch", "olderEpoch") and r["fetches"]),
@@ -429,6 +436,8 @@ def run(ctx):
             "time: live request under the previous epoch's key dropped": rec_time[
                 "live listener: request under the previous epoch's key met a cached key of that epoch and was dropped"],
             "time: fetcher replaced an ended key": rec_time["fetcher: cached key of an ended epoch replaced"],
+            "time: real client accepted an authenticated reply after an epoch boundary": rec_time[
+                "real client after an epoch boundary (listener's cached key ended): accepted an authenticated reply"],
             "key regime: client verified": sum(1 for r in krecs if r["k"] == "e2e" and r["cli"] == "accept" and r["delivered"]
                                                and r["rhasauth"] and r["rexpected"] and r["rmacok"])}
     missing = [k for k, v in need.items() if v == 0]
